@@ -494,11 +494,12 @@ func c18client(intervalS int64, mode0 string, k int, delta time.Duration) func()
 // sends meanwhile, and nothing after its end - on its own connection (which the server may have left open) or, through
 // the shared transport, on the next one. What a session leaves behind for the next (a stop guard, a channel, a
 // timestamp) shows in the second or third.
-//   eof               the server's end goes away
-//   stream-close-open the server ends the stream and leaves the socket open
-//   disconnect        the application calls Disconnect
-//   writes-die        (last session only) every write fails from some point on, reads stay silent: the next keepalive
-//                     must fail, close the connection and so get the loss reported
+//
+//	eof               the server's end goes away
+//	stream-close-open the server ends the stream and leaves the socket open
+//	disconnect        the application calls Disconnect
+//	writes-die        (last session only) every write fails from some point on, reads stay silent: the next keepalive
+//	                  must fail, close the connection and so get the loss reported
 func c18sessions(intervalS int64, ends []string, delta time.Duration, traffic bool) func() {
 	return func() {
 		vrt.Quiet(true)
@@ -691,12 +692,12 @@ func TestVerifC18(t *testing.T) {
 					scs = append(scs, hx.Scenario{Name: fmt.Sprintf("sessions/%s,%s,%s/delta=%s", a, b, c, d), Opt: vrt.Options{Bound: 1, Horizon: 200000}, Body: c18sessions(30, ends, d, false), Verdict: c18verdict})
 				}
 			}
-			scs = append(scs, hx.Scenario{Name: fmt.Sprintf("sessions/%s,%s/traffic", a, b), Opt: vrt.Options{Bound: 1, Horizon: 200000}, Body: c18sessions(30, []string{a, b}, 7 * time.Second, true), Verdict: c18verdict})
-			scs = append(scs, hx.Scenario{Name: fmt.Sprintf("sessions/%s,%s,writes-die/traffic", a, b), Opt: vrt.Options{Bound: 1, Horizon: 200000}, Body: c18sessions(30, []string{a, b, "writes-die"}, 7 * time.Second, true), Verdict: c18verdict})
+			scs = append(scs, hx.Scenario{Name: fmt.Sprintf("sessions/%s,%s/traffic", a, b), Opt: vrt.Options{Bound: 1, Horizon: 200000}, Body: c18sessions(30, []string{a, b}, 7*time.Second, true), Verdict: c18verdict})
+			scs = append(scs, hx.Scenario{Name: fmt.Sprintf("sessions/%s,%s,writes-die/traffic", a, b), Opt: vrt.Options{Bound: 1, Horizon: 200000}, Body: c18sessions(30, []string{a, b, "writes-die"}, 7*time.Second, true), Verdict: c18verdict})
 		}
-		scs = append(scs, hx.Scenario{Name: fmt.Sprintf("sessions/%s,writes-die", a), Opt: vrt.Options{Bound: 1, Horizon: 200000}, Body: c18sessions(30, []string{a, "writes-die"}, 7 * time.Second, false), Verdict: c18verdict})
+		scs = append(scs, hx.Scenario{Name: fmt.Sprintf("sessions/%s,writes-die", a), Opt: vrt.Options{Bound: 1, Horizon: 200000}, Body: c18sessions(30, []string{a, "writes-die"}, 7*time.Second, false), Verdict: c18verdict})
 	}
-	scs = append(scs, hx.Scenario{Name: "sessions/writes-die/traffic", Opt: vrt.Options{Bound: 1, Horizon: 200000}, Body: c18sessions(30, []string{"writes-die"}, 7 * time.Second, true), Verdict: c18verdict})
+	scs = append(scs, hx.Scenario{Name: "sessions/writes-die/traffic", Opt: vrt.Options{Bound: 1, Horizon: 200000}, Body: c18sessions(30, []string{"writes-die"}, 7*time.Second, true), Verdict: c18verdict})
 	if hx.Main("C18", scs) == 2 {
 		t.Fatal("internal error")
 	}
